@@ -240,6 +240,7 @@ int32_t tls13NewTicket(ssl_t *ssl,
     {
         tls13FreePsk(psk, ssl->hsPool);
         psAesClearGCM(&ctx);
+        psDynBufUninit(&buf);
         return rc;
     }
 
@@ -253,6 +254,7 @@ int32_t tls13NewTicket(ssl_t *ssl,
     {
         tls13FreePsk(psk, ssl->hsPool);
         psAesClearGCM(&ctx);
+        psDynBufUninit(&buf);
         return rc;
     }
 
@@ -275,6 +277,14 @@ int32_t tls13NewTicket(ssl_t *ssl,
 # endif
 
     tag = psMalloc(ssl->hsPool, TLS_GCM_TAG_LEN);
+    if (tag == NULL)
+    {
+        tls13FreePsk(psk, ssl->hsPool);
+        psFree(state, ssl->hsPool);
+        psAesClearGCM(&ctx);
+        psDynBufUninit(&buf);
+        return PS_MEM_FAIL;
+    }
     psAesGetGCMTag(&ctx,
             TLS_GCM_TAG_LEN,
             tag);
